@@ -146,6 +146,9 @@ def run(ck):
     # 1. the modelled design (repaired behaviour) satisfies invariants and contract on every history ...
     ck.mc("Metrics", "Metrics.mc.cfg", timeout=600)
     ck.mc("Metrics", "Metrics.mc2.cfg", timeout=600)
+    # the timeout counter along one pass of the timeout thread: exact when only state-changing cancels count; the shipped
+    # variant (known finding D18) is the negative control
+    ck.mc("TimeoutCount", "TimeoutCount.mc.cfg", timeout=600)
     # ... and the model of the shipped code is refuted (negative control: the model sees D7)
     controls = {}
     paths = [None] if quick else [None, "between", "inflight", "throttle"]
